@@ -53,6 +53,32 @@ VARIANTS = [
     V("c02-rtpg-overlap", ["C02"], P + "scsi_cdb_report_target_port_groups.py", '"parameter_data_format": [0xE0, 1]',
       '"parameter_data_format": [0xF0, 1]', rule="decode-after-encode"),
     V("c02-zero-mask", ["C02", "C01"], P + "scsi_cdb_movemedium.py", '"invert": [0x01, 10]', '"invert": [0x00, 10]', allow_error=True),
+    # ---- C03 ----------------------------------------------------------
+    V("c03-read12-one-block", ["C03"], P + "scsi_cdb_read12.py", "SCSICommand.__init__(self, opcode, 0, blocksize * tl)",
+      "SCSICommand.__init__(self, opcode, 0, blocksize)", rule="buffer-matches-transfer"),
+    V("c03-modesense6-buffer-other-var", ["C03"], P + "scsi_cdb_modesense6.py", "SCSICommand.__init__(self, opcode, 0, alloclen)",
+      "SCSICommand.__init__(self, opcode, 0, 96)"),
+    V("c03-ata16-swapped-dir", ["C03"], P + "scsi_cdb_atapassthrough16.py",
+      "            dataout_alloclen = tl * blocksize\n            datain_alloclen = 0\n        else:",
+      "            dataout_alloclen = 0\n            datain_alloclen = tl * blocksize\n        elif t_dir == 7:"),
+    V("c03-ata12-512-520", ["C03"], P + "scsi_cdb_atapassthrough12.py", "blocksize = 512", "blocksize = 520"),
+    V("c03-ata12-count-feature", ["C03"], P + "scsi_cdb_atapassthrough12.py", "            tl = count\n", "            tl = fetures\n"),
+    V("c03-sgio-swapped", ["C03", "C13"], P + "scsi_device.py", "cmd.cdb, cmd.dataout, cmd.datain)", "cmd.cdb, cmd.datain, cmd.dataout)",
+      rule="transport-passes-buffers"),
+    V("c03-iscsi-precedence", ["C03"], "pyscsi/pyiscsi/iscsi_device.py",
+      "        if len(cmd.datain):\n            dir = iscsi.SCSI_XFER_READ\n            xferlen = len(cmd.datain)\n        if len(cmd.dataout):\n            dir = iscsi.SCSI_XFER_WRITE\n            xferlen = len(cmd.dataout)",
+      "        if len(cmd.dataout):\n            dir = iscsi.SCSI_XFER_WRITE\n            xferlen = len(cmd.dataout)\n        if len(cmd.datain):\n            dir = iscsi.SCSI_XFER_READ\n            xferlen = len(cmd.datain)",
+      rule="transport-passes-buffers"),
+    V("c03-iscsi-xferlen", ["C03"], "pyscsi/pyiscsi/iscsi_device.py", "xferlen = len(cmd.dataout)", "xferlen = len(cmd.datain)"),
+    V("c03-base-init-swapped", ["C03"], P + "scsi_command.py",
+      "        self.dataout = bytearray(dataout_alloclen)\n        self.datain = bytearray(datain_alloclen)",
+      "        self.dataout = bytearray(datain_alloclen)\n        self.datain = bytearray(dataout_alloclen)"),
+    V("c03-write10-copy", ["C03"], P + "scsi_cdb_write10.py", "self.dataout = data\n", "self.dataout = bytearray(blocksize)\n"),
+    V("c03-writesame16-none", ["C03"], P + "scsi_cdb_writesame16.py", "        if not ndob:\n            self.dataout = data",
+      "        self.dataout = None if ndob else data", rule="buffer-is-bytes"),
+    V("c03-readcd-small", ["C03"], P + "scsi_cdb_readcd.py", "tl * 3072", "tl * 2048"),
+    V("c03-twin-hoist", ["C03", "C01"], P + "scsi_cdb_read16.py", "        SCSICommand.__init__(self, opcode, 0, blocksize * tl)",
+      "        n = tl * blocksize\n        SCSICommand.__init__(self, opcode, 0, n)", expect="silent"),
     # ---- C01 ----------------------------------------------------------
     V("c01-ata16-lba-mask", ["C01", "C02"], P + "scsi_cdb_atapassthrough16.py", '"lba": [0xFFFFFFFFFFFF, 7]', '"lba": [0xFFFFFFFFFF, 7]',
       rule="field-position"),
